@@ -48,9 +48,12 @@ structure AggCfg where
   nestedMerge : Bool := true
   /-- `remap_resource` skips the owner import when a semver-compatible import exists (fix 755b7a5) -/
   ownerSemver : Bool := true
+  /-- `remap_value_type` uses a recorded replacement of a defined type directly, also when it is
+  not a defined type (fix b2ae0a5; before: panic "expected a defined type") -/
+  remapReplaced : Bool := true
 deriving Repr, Inhabited, DecidableEq
 
-def AggCfg.pinned : AggCfg := { nestedMerge := false, ownerSemver := false }
+def AggCfg.pinned : AggCfg := { nestedMerge := false, ownerSemver := false, remapReplaced := false }
 def AggCfg.fixed : AggCfg := {}
 
 structure AggState where
@@ -246,7 +249,11 @@ def remapValueType : Nat → Types → ValueType → AggM ValueType
   | _ + 1, _, .prim p => return .prim p
   | fuel + 1, types, .borrow r => do return .borrow (← remapResource fuel types r)
   | fuel + 1, types, .own r => do return .own (← remapResource fuel types r)
-  | fuel + 1, types, .defined d => do return .defined (← remapDefined fuel types d)
+  | fuel + 1, types, .defined d => do
+    let cfg := (← get).cfg
+    match cfg.remapReplaced, ← remappedGet types (.value (.defined d)) with
+    | true, some (.value v) => return v
+    | _, _ => return .defined (← remapDefined fuel types d)
 
 /-- `remap_defined_type` -/
 def remapDefined : Nat → Types → Nat → AggM Nat
